@@ -1187,8 +1187,10 @@ def lifecycle_race(t, clause, at):
       R2  a lifecycle routine of the violating thread that contains the event overlapped one of another thread, or
       R3  the open_link call of the event's attempt overlapped a lifecycle routine of another thread, or
       R4  the dispatcher delivers link_established/connected/fully_connected while handling a packet it took from a
-          link whose teardown (error report, close_link) had begun or that was replaced by a later open_link;
-      for the end-of-trace clauses: some overlap (R2) or R4 anywhere in the history.
+          link whose teardown (error report, close_link) had begun or that was replaced by a later open_link, or
+      R5  earlier in the history the dispatcher handled a packet of a link that had already been REPLACED by a later
+          open_link (a stale packet drives the set-up chain of the attempt the event belongs to);
+      for the end-of-trace clauses: some overlap (R2) or R4/R5 anywhere in the history.
     Returns None or the variant: 'reconnect' (an open_link of attempt >= 2 happened before) | 'during-teardown'."""
     if clause not in RACE_CLAUSES:
         return None
@@ -1203,22 +1205,52 @@ def lifecycle_race(t, clause, at):
     def overlaps(w):
         return any(o['th'] != w['th'] and o['b'] <= w['e'] and w['b'] <= o['e'] for o in wins)
 
+    # which attempt's driver object does Crazyflie.link hold after each event (0 = None), and which did the dispatcher
+    # last read / take its current packet from
+    link_at, disp_pkt_link, handling = [], [], []
+    cur, rd, pkt, hnd = 0, 0, 0, 0
+    for i, x in enumerate(ev):
+        if x['e'] == 'op' and x['k'] == 'wl':
+            w = [w_ for w_ in wins if w_['th'] == x['th'] and w_['b'] <= i + 1 <= w_['e']]
+            cur = w[-1]['att'] if (w and w[-1]['k'] == 'open' and x['c'] != 'cf2') else 0
+        if x['e'] == 'op' and x['st'] == 'disp':
+            if x['k'] == 'rl':
+                rd = cur
+            elif x['k'] == 'recv' and x['c'] != 'to':
+                pkt = hnd = rd
+            elif x['k'] in ('recv', 'sleep'):
+                hnd = 0             # back at the top of the loop: the previous packet has been handled
+        link_at.append(cur)
+        disp_pkt_link.append(pkt)
+        handling.append(hnd)        # link of the packet the dispatcher is handling at this event (0 = none)
+
+    def newest_open(upto):
+        return max([x['att'] for x in ev[:upto] if x['e'] == 'open'] or [0])
+
     def stale_packet(i):
         """event i (0-based) is a set-up callback of the dispatcher for a packet of a link that is gone"""
         e = ev[i]
         if not (e['e'] == 'cb' and e['st'] == 'disp' and e['name'] in ('established', 'connected', 'fully')):
             return False
-        r = next((j for j in range(i - 1, -1, -1) if ev[j]['e'] == 'op' and ev[j]['st'] == 'disp' and ev[j]['k'] == 'recv'
-                  and ev[j]['c'] != 'to'), None)
-        if r is None:
+        a_r = disp_pkt_link[i]
+        if a_r == 0:
             return False
-        rd = next((j for j in range(r - 1, -1, -1) if ev[j]['e'] == 'op' and ev[j]['st'] == 'disp' and ev[j]['k'] == 'rl'), r)
-        a_r = max([x['att'] for x in ev[:rd] if x['e'] == 'open'] or [0])
         return any((x['e'] in ('lerr', 'close') and x['att'] == a_r) or (x['e'] == 'open' and x['att'] > a_r) for x in ev[:i])
+
+    def replaced_link_packet(upto, att):
+        """a packet of an older link object was handled after open_link of attempt `att` (or later) had begun"""
+        newest = 0
+        for i, x in enumerate(ev[:upto]):
+            if x['e'] == 'open':
+                newest = max(newest, x['att'])
+            if x['st'] == 'disp' and 0 < handling[i] < newest and newest >= att > 0:
+                return True
+        return False
     variant = 'reconnect' if any(x['e'] == 'open' and x['att'] >= 2 for x in ev[:max(at, 0)]) else 'during-teardown'
     if clause in ('SyncCallHangs', 'NotDisconnected', 'SpuriousDisconnected'):
         hist = ev[:max(at, 0)]
-        race = any(overlaps(w) for w in wins if w['b'] <= at) or any(stale_packet(i) for i in range(len(hist)))
+        race = (any(overlaps(w) for w in wins if w['b'] <= at) or any(stale_packet(i) for i in range(len(hist))) or
+                replaced_link_packet(at, 1))
         return variant if race else None
     if not 0 < at <= len(ev):
         return None
@@ -1230,7 +1262,8 @@ def lifecycle_race(t, clause, at):
     r2 = any(w['th'] == th and w['b'] <= at <= w['e'] and overlaps(w) for w in wins)
     r3 = any(w['k'] == 'open' and w['att'] == a and overlaps(w) for w in wins)
     r4 = stale_packet(at - 1)
-    return variant if (r1 or r2 or r3 or r4) else None
+    r5 = replaced_link_packet(at, a)
+    return variant if (r1 or r2 or r3 or r4 or r5) else None
 
 
 def signature(t, clause, at):
